@@ -169,6 +169,7 @@ class Scheduler:
         self.observer = observer  # observer(sched, lthread, op) is called before each resume;
         self.snaps = {}           # its result is kept here under the index of the event in self.events
         self.overrun = False
+        self.stall_timeout = 30.0  # real seconds a thread may run between two labelled operations
 
     # -- called by logical threads ------------------------------------------
     def me(self):
@@ -211,7 +212,12 @@ class Scheduler:
     def _resume(self, t):
         self.current = t
         t.go.release()
-        self.back.acquire()
+        if not self.back.acquire(timeout=self.stall_timeout):
+            # the thread neither reached a labelled operation nor finished: it spins or
+            # blocks on something the fakes do not control.  It cannot be killed (it is a
+            # daemon thread and dies with the process); report instead of hanging.
+            raise HarnessError("logical thread %s did not reach a labelled operation within %ss"
+                               % (t.name, self.stall_timeout))
         self.current = None
 
     def run(self):
